@@ -1191,7 +1191,11 @@ impl<'a> FieldEntry<'a> {
         // since field name change by rust-analyzer is not possible when using `field.ident` span
         //
         // Same problem with `field.span()`, since it is the same as `field.ident` span when `field.vis` is empty.
-        self.field.ty.span()
+        //
+        // Only the location is taken from the field: names in the generated code (`self`, `__this`, `__other`, ...)
+        // must resolve where the rest of the generated code does, also when the field's tokens were passed through
+        // a `macro_rules!` macro while the attribute was written in its body.
+        self.field.ty.span().resolved_at(Span::call_site())
     }
 
     fn member(&self) -> TokenStream {
